@@ -81,6 +81,9 @@ def gen(rng):
             occ_steps = steps
         if dk == 'file':
             occ_steps.append(['f', loc, 'existing-%d' % i, 0o640, 1_222_222_222])
+            if rng.random() < 0.3:
+                # the occupant has a second hard link elsewhere on its volume: replacing the occupant does not touch that one
+                occ_steps.append(['h', posixpath.dirname(base) + '/keep-%d' % i, loc])
         elif dk == 'emptyfile':
             occ_steps.append(['f', loc, '', 0o644, 1_222_222_223])
         elif dk == 'emptydir':
@@ -352,6 +355,13 @@ def check(sim, case, st):
                         % (loc, dk, tk, have, r.exit, r.errs[-300:])))
             if not Wd.same_tree(expected_there, have) and dk.startswith('symlink->dir'):
                 pass
+    # replacing an occupant means taking ITS NAME: another hard link of the same file keeps the old content
+    for k_, v_ in snap0.items():
+        if '/keep-' in k_ and v_[0] == 'f' and not Wd.same_entry(v_, snap1.get(k_)):
+            st.probes['occupant-has-a-second-hard-link'] += 0
+            res.append(('C06/other-hard-link-of-the-occupant-changed', 'the occupant had a second hard link %r: it was %r, is now %r (argv %r, exit %s)'
+                        % (k_, v_, snap1.get(k_), spec['argv'], r.exit)))
+            break
     seen, out = set(), []
     for s, m in res:
         if s not in seen:
